@@ -170,3 +170,63 @@ where
         })
         .build_component()
 }
+
+#[cfg(mahf_verif)]
+impl ASParameters {
+    /// Verification hook: the fields are private and there is no public constructor.
+    pub fn verif_new(
+        num_ants: usize,
+        alpha: f64,
+        beta: f64,
+        default_pheromones: f64,
+        evaporation: f64,
+        decay_coefficient: f64,
+    ) -> Self {
+        Self {
+            num_ants,
+            alpha,
+            beta,
+            default_pheromones,
+            evaporation,
+            decay_coefficient,
+        }
+    }
+}
+
+#[cfg(mahf_verif)]
+impl MMASParameters {
+    /// Verification hook: the fields are private and there is no public constructor.
+    pub fn verif_new(
+        num_ants: usize,
+        alpha: f64,
+        beta: f64,
+        default_pheromones: f64,
+        evaporation: f64,
+        max_pheromones: f64,
+        min_pheromones: f64,
+    ) -> Self {
+        Self {
+            num_ants,
+            alpha,
+            beta,
+            default_pheromones,
+            evaporation,
+            max_pheromones,
+            min_pheromones,
+        }
+    }
+}
+
+#[cfg(mahf_verif)]
+impl<P> Parameters<P> {
+    /// Verification hook: the fields are private and there is no public constructor.
+    pub fn verif_new(
+        generation: Box<dyn Component<P>>,
+        pheromone_update: Box<dyn Component<P>>,
+    ) -> Self {
+        Self {
+            generation,
+            pheromone_update,
+        }
+    }
+}
